@@ -1035,6 +1035,16 @@ def suite_ser(g, scale):
         g.emit("hex64 %s" % x)
         for entry in ENTRIES:
             g.emit("trunc64 %s %s" % (x, entry))
+        if not getattr(h, "_fixed_counts_done", False) and "count" not in AVOID:
+            # once per run, deterministically: bucket counts with the top bit set / near the top through EVERY entry point, and a
+            # spread of other implausible counts through the slice decoder
+            h._fixed_counts_done = True
+            for entry in ENTRIES:
+                for v in (1 << 63, (1 << 63) + 1, MAXV):
+                    g.emit("cor64 %s %s count %d" % (x, entry, v))
+            for v in (MAXV - 1, 1 << 62, 1 << 47, 1 << 32, nb + 1, 0):
+                g.emit("cor64 %s fromunsafe count %d" % (x, v))
+            g.count("cor64:fixed-counts")
         for _ in range(12):
             entry = r.choice(ENTRIES)
             f = r.choice(["count", "count", "count", "key", "key", "cookie", "cookie", "isize", "byte"])
